@@ -877,7 +877,7 @@ class Summaries:
                     for f_ in v.fields:
                         yield from closures(f_, depth + 1)
             for cl in closures(itv):
-                if any(ex.reaches_effects(f_) for f_ in cl.fields):
+                if any(ex.reaches_effects(f_) for f_ in cl.fields) and not self.closure_runs_pure(ctx, st, cl):
                     raise ex_undecided("next() on %s whose closure captures mutable state or a hardware handle: the interpreter "
                                        "would not run it" % itv.name)
         # a chunk iterator whose progress is tracked below is updated field by field, not havoced as a whole
@@ -1113,6 +1113,41 @@ class Summaries:
         if sty["def"] == OPTION:
             return [(st, Agg("adt", OPTION, 1, [ctx.args[0]], ctx.ex.normalize(sty)))]
         return None
+
+    def closure_runs_pure(self, ctx, st, cl):
+        """run the closure once on fresh symbolic arguments in a scratch state: it is pure if it performs no abstract
+        call (hardware operation), no unmodelled call and writes nothing outside its own frame"""
+        ex = ctx.ex
+        rec = ex.F.bodies.get(cl.name)
+        if rec is None:
+            return False
+        body = rec["body"]
+        n = int(body["arg_count"])
+        probe = st.fork()
+        args = []
+        for i in range(2, n + 1):
+            args.append(ex.mk_sym(ex.normalize(T.subst(body["locals"][i]["ty"], cl.extra or {})), ex.fresh("probe-arg")))
+        log = set()
+        saved_log, ex.write_log = ex.write_log, log
+        n_term, n_notes, n_tr = len(ex.terminated), len(ex.notes), len(probe.trace)
+        ok = True
+        try:
+            res = self.call_f(ctx, probe, cl, args)
+            for s2, _v in res:
+                if any(getattr(it, "kind", None) == "call" for it in s2.trace[n_tr:]):
+                    ok = False
+            if len(ex.notes) > n_notes:
+                ok = False
+            for (root, _p) in log:
+                if root[0] == "O" or (root[0] == "L" and root in st.mem):
+                    ok = False
+        except Exception:
+            ok = False
+        finally:
+            ex.write_log = saved_log
+            del ex.terminated[n_term:]
+            del ex.notes[n_notes:]
+        return ok
 
     def adaptor_next(self, ctx, st, itv):
         """Map / Copied / Cloned::next over an iterator that is not modelled exactly: one `next` of the inner iterator
